@@ -50,8 +50,10 @@ func ruleNFIELDS(p *Program, r *Reporter) {
 		fa, ok := ld.X.(*ssa.FieldAddr)
 		return ok && fieldOfAddr(fa) == opFld
 	}
-	region := p.PrivateRegion(root)
-	region[root] = true
+	region := map[*ssa.Function]bool{}
+	for _, g := range p.Reach(root) {
+		region[g] = true
+	}
 	// members touched by each function of the region, transitively
 	direct := map[*ssa.Function]map[*types.Var]bool{}
 	for g := range region {
@@ -134,6 +136,23 @@ func ruleNFIELDS(p *Program, r *Reporter) {
 										touch[m][lb] = true
 									}
 								}
+							}
+						}
+					}
+				}
+				// an inner loop over a package-level table of functions runs at least once:
+				// its header stands for what its body touches
+				for _, lb := range g.Blocks {
+					if !inLoopOf(h, lb) || lb == h || loopHeaderOf(lb) != lb && !isLoopHeader(lb) {
+						continue
+					}
+					if !isLoopHeader(lb) || !rangesOverTable(p, lb) {
+						continue
+					}
+					for m := range members {
+						for tb := range touch[m] {
+							if inLoopOf(lb, tb) {
+								touch[m][lb] = true
 							}
 						}
 					}
@@ -571,14 +590,51 @@ func ruleRWG(p *Program, r *Reporter) {
 		}
 		return len(c.Common().Args) > 0 && isFieldLoad(c.Common().Args[0], wgFld)
 	}
-	// functions (with their closures and private callees) that read stopCh / call Done / Wait
-	summar := func(f *ssa.Function) (readsStop, done, waits bool) {
-		reg := p.PrivateRegion(f)
-		reg[f] = true
-		for g := range reg {
-			if pkgOf(g) != "client" {
-				continue
+	// callClosure: f and what it reaches through calls (not through go statements) inside
+	// package client, bound-method wrappers and function values included
+	callClosure := func(roots ...*ssa.Function) []*ssa.Function {
+		seen := map[*ssa.Function]bool{}
+		var out, work []*ssa.Function
+		for _, f := range roots {
+			if f != nil && !seen[f] {
+				seen[f] = true
+				work = append(work, f)
 			}
+		}
+		for len(work) > 0 {
+			f := work[0]
+			work = work[1:]
+			out = append(out, f)
+			for _, b := range f.Blocks {
+				for _, ins := range b.Instrs {
+					c, ok := ins.(ssa.CallInstruction)
+					if !ok {
+						continue
+					}
+					if _, isGo := ins.(*ssa.Go); isGo {
+						continue
+					}
+					if c.Common().IsInvoke() {
+						continue
+					}
+					fns, _ := p.Callees(c)
+					for _, g := range fns {
+						if g == nil || seen[g] || len(g.Blocks) == 0 {
+							continue
+						}
+						if pk := pkgOf(g); pk != "client" && !(pk == "" && g.Synthetic != "") {
+							continue
+						}
+						seen[g] = true
+						work = append(work, g)
+					}
+				}
+			}
+		}
+		return out
+	}
+	summar := func(targets []*ssa.Function) (readsStop, done, waits bool) {
+		for _, g := range callClosure(targets...) {
 			for _, b := range g.Blocks {
 				for _, ins := range b.Instrs {
 					if fa, ok := ins.(*ssa.FieldAddr); ok && fieldOfAddr(fa) == stopFld {
@@ -595,30 +651,26 @@ func ruleRWG(p *Program, r *Reporter) {
 		}
 		return
 	}
-	region := p.PrivateRegion(root)
-	region[root] = true
 	n := 0
-	for g := range region {
-		if pkgOf(g) != "client" {
-			continue
-		}
+	for _, g := range callClosure(root) {
 		for _, b := range g.Blocks {
 			for i, ins := range b.Instrs {
 				gi, ok := ins.(*ssa.Go)
 				if !ok {
 					continue
 				}
-				var target *ssa.Function
-				switch v := gi.Call.Value.(type) {
-				case *ssa.Function:
-					target = v
-				case *ssa.MakeClosure:
-					target, _ = v.Fn.(*ssa.Function)
+				targets, _ := p.Callees(gi)
+				var live []*ssa.Function
+				for _, t := range targets {
+					if t != nil && len(t.Blocks) > 0 {
+						live = append(live, t)
+					}
 				}
-				if target == nil || len(target.Blocks) == 0 {
+				if len(live) == 0 {
 					continue
 				}
-				readsStop, done, waits := summar(target)
+				target := live[0]
+				readsStop, done, waits := summar(live)
 				for _, a := range gi.Call.Args {
 					if isFieldLoad(a, stopFld) {
 						readsStop = true
@@ -669,7 +721,49 @@ func ruleRWG(p *Program, r *Reporter) {
 			}
 		}
 	}
-	if n < 2 {
+	if n < 1 {
 		r.Anchor(id, "connect: goroutines that watch stopCh")
 	}
+}
+
+func isLoopHeader(b *ssa.BasicBlock) bool {
+	for _, pr := range b.Preds {
+		if b.Dominates(pr) {
+			return true
+		}
+	}
+	return false
+}
+
+// rangesOverTable: the loop with header h iterates over a package-level slice or
+// array of functions that the package initialiser fills with at least one entry
+// (the bound of the loop is len() of a load of that variable).
+func rangesOverTable(p *Program, h *ssa.BasicBlock) bool {
+	check := func(b *ssa.BasicBlock) bool {
+		for _, ins := range b.Instrs {
+			c, ok := ins.(*ssa.Call)
+			if !ok {
+				continue
+			}
+			bi, ok := c.Call.Value.(*ssa.Builtin)
+			if !ok || bi.Name() != "len" || len(c.Call.Args) != 1 {
+				continue
+			}
+			if ld, ok := c.Call.Args[0].(*ssa.UnOp); ok {
+				if g, isG := ld.X.(*ssa.Global); isG && len(p.sliceTableFuncs(g)) > 0 {
+					return true
+				}
+			}
+		}
+		return false
+	}
+	if check(h) {
+		return true
+	}
+	for _, pr := range h.Preds {
+		if !h.Dominates(pr) && check(pr) {
+			return true
+		}
+	}
+	return false
 }
